@@ -157,3 +157,215 @@ pub proof fn lemma_forward_backward_converse(x: RefProgramLocation, y: RefProgra
         assert(fw[i].loc() == y.loc());
     }
 }
+
+// ---------------------------------------------------------------------------------------------
+// forward closure of the entry location == locations on paths from the entry block
+
+/// p[i] -> p[i + 1] is a forward step
+pub open spec fn loc_walk_step(f: Function, p: Seq<Loc>, i: int) -> bool {
+    succ(f, p[i], p[i + 1])
+}
+
+/// p is a non-empty sequence of locations, each a forward step from the one before
+pub open spec fn loc_walk(f: Function, p: Seq<Loc>) -> bool {
+    p.len() >= 1 && forall|i: int| 0 <= i < p.len() - 1 ==> #[trigger] loc_walk_step(f, p, i)
+}
+
+/// l is reachable from l0 by repeated (zero or more) forward steps
+pub open spec fn loc_reach(f: Function, l0: Loc, l: Loc) -> bool {
+    exists|p: Seq<Loc>| #![trigger loc_walk(f, p)] loc_walk(f, p) && p[0] == l0 && p.last() == l
+}
+
+/// l is an instruction / the EmptyBlock location of a block reachable from block e, or an edge leaving such a block
+pub open spec fn on_path_from(f: Function, e: usize, l: Loc) -> bool {
+    loc_valid(f, l) && match l {
+        Loc::Instruction(b, _) => f.control_flow_graph.graph.reaches(e, b),
+        Loc::EmptyBlock(b) => f.control_flow_graph.graph.reaches(e, b),
+        Loc::Edge(h, _) => f.control_flow_graph.graph.reaches(e, h),
+    }
+}
+
+/// the location where block b starts
+pub open spec fn block_start(f: Function, b: usize) -> Loc {
+    let blk = f.control_flow_graph.blocks_view()[b];
+    if blk.instructions@.len() == 0 { Loc::EmptyBlock(b) } else { Loc::Instruction(b, blk.instructions@[0].index) }
+}
+
+pub proof fn lemma_loc_reach_refl(f: Function, l: Loc)
+    ensures loc_reach(f, l, l),
+{
+    let p = seq![l];
+    assert(loc_walk(f, p) && p[0] == l && p.last() == l);
+}
+
+pub proof fn lemma_loc_reach_step(f: Function, l0: Loc, l: Loc, l2: Loc)
+    requires loc_reach(f, l0, l), succ(f, l, l2),
+    ensures loc_reach(f, l0, l2),
+{
+    let p = choose|p: Seq<Loc>| #![trigger loc_walk(f, p)] loc_walk(f, p) && p[0] == l0 && p.last() == l;
+    let q = p.push(l2);
+    assert forall|i: int| 0 <= i < q.len() - 1 implies #[trigger] loc_walk_step(f, q, i) by {
+        if i < p.len() - 1 {
+            assert(loc_walk_step(f, p, i));
+            assert(q[i] == p[i] && q[i + 1] == p[i + 1]);
+        } else {
+            assert(q[i] == l && q[i + 1] == l2);
+        }
+    }
+    assert(loc_walk(f, q) && q[0] == l0 && q.last() == l2);
+}
+
+/// induction principle for forward walks
+pub proof fn lemma_loc_walk_closed(f: Function, s: spec_fn(Loc) -> bool, p: Seq<Loc>, i: int)
+    requires
+        loc_walk(f, p), s(p[0]), 0 <= i < p.len(),
+        forall|a: Loc, b: Loc| #![trigger succ(f, a, b)] s(a) && succ(f, a, b) ==> s(b),
+    ensures s(p[i]),
+    decreases i,
+{
+    if i > 0 {
+        lemma_loc_walk_closed(f, s, p, i - 1);
+        assert(loc_walk_step(f, p, i - 1));
+    }
+}
+
+/// the set of locations on paths from block e is closed under forward steps
+pub proof fn lemma_on_path_closed(f: Function, e: usize, a: Loc, b: Loc)
+    requires f.function_wf(), on_path_from(f, e, a), succ(f, a, b),
+    ensures on_path_from(f, e, b),
+{
+    let g = f.control_flow_graph.graph;
+    lemma_step_valid(f, a, b);
+    match a {
+        Loc::Instruction(k, i) => {
+            let blk = f.control_flow_graph.blocks_view()[k];
+            let p = choose|p: int| #[trigger] instr_at(blk, p, i) && (
+                if p + 1 < blk.instructions@.len() { b == Loc::Instruction(k, blk.instructions@[p + 1].index) }
+                else { is_out_edge(f, k, b) });
+        }
+        Loc::Edge(h, t) => {
+            assert(g.edges@.dom().contains((h, t)));
+            graph::lemma_path_step(g.edges@.dom(), e, h, t);
+        }
+        Loc::EmptyBlock(k) => {}
+    }
+}
+
+/// from the start of block b every instruction of b is reachable (induction on the position)
+pub proof fn lemma_reach_within_block(f: Function, b: usize, p: int)
+    requires f.function_wf(), f.control_flow_graph.has_block(b), 0 <= p < f.control_flow_graph.blocks_view()[b].instructions@.len(),
+    ensures loc_reach(f, block_start(f, b), Loc::Instruction(b, f.control_flow_graph.blocks_view()[b].instructions@[p].index)),
+    decreases p,
+{
+    let blk = f.control_flow_graph.blocks_view()[b];
+    if p == 0 {
+        lemma_loc_reach_refl(f, block_start(f, b));
+    } else {
+        lemma_reach_within_block(f, b, p - 1);
+        lemma_instr_loc_valid(f, b, p - 1);
+        let i1 = blk.instructions@[p - 1].index;
+        let l2 = Loc::Instruction(b, blk.instructions@[p].index);
+        assert(instr_at(blk, p - 1, i1));
+        assert(succ_instr(f, b, i1, l2));
+        lemma_loc_reach_step(f, block_start(f, b), Loc::Instruction(b, i1), l2);
+    }
+}
+
+/// from the start of block h every edge leaving h is reachable
+pub proof fn lemma_reach_out_edge(f: Function, h: usize, t: usize)
+    requires f.function_wf(), f.control_flow_graph.has_edge(h, t),
+    ensures loc_reach(f, block_start(f, h), Loc::Edge(h, t)),
+{
+    lemma_edge_ends(f, h, t);
+    let blk = f.control_flow_graph.blocks_view()[h];
+    let l2 = Loc::Edge(h, t);
+    assert(is_out_edge(f, h, l2));
+    if blk.instructions@.len() == 0 {
+        lemma_loc_reach_refl(f, block_start(f, h));
+        lemma_loc_reach_step(f, block_start(f, h), Loc::EmptyBlock(h), l2);
+    } else {
+        let n = blk.instructions@.len() - 1;
+        lemma_reach_within_block(f, h, n);
+        lemma_instr_loc_valid(f, h, n);
+        let i = blk.instructions@[n].index;
+        assert(instr_at(blk, n, i));
+        assert(succ_instr(f, h, i, l2));
+        lemma_loc_reach_step(f, block_start(f, h), Loc::Instruction(h, i), l2);
+    }
+}
+
+pub proof fn lemma_loc_reach_trans(f: Function, l0: Loc, l1: Loc, l2: Loc)
+    requires loc_reach(f, l0, l1), loc_reach(f, l1, l2),
+    ensures loc_reach(f, l0, l2),
+{
+    let q = choose|q: Seq<Loc>| #![trigger loc_walk(f, q)] loc_walk(f, q) && q[0] == l1 && q.last() == l2;
+    let s = |l: Loc| loc_reach(f, l0, l);
+    assert forall|a: Loc, b: Loc| #![trigger succ(f, a, b)] s(a) && succ(f, a, b) implies s(b) by {
+        lemma_loc_reach_step(f, l0, a, b);
+    }
+    lemma_loc_walk_closed(f, s, q, q.len() - 1);
+}
+
+/// the start of every block reachable from block e is reachable from the start of e
+pub proof fn lemma_reach_block_start(f: Function, e: usize, b: usize)
+    requires f.function_wf(), f.control_flow_graph.has_block(e), f.control_flow_graph.graph.reaches(e, b),
+    ensures loc_reach(f, block_start(f, e), block_start(f, b)),
+{
+    let g = f.control_flow_graph.graph;
+    let l0 = block_start(f, e);
+    let s = |k: usize| loc_reach(f, l0, block_start(f, k));
+    lemma_loc_reach_refl(f, l0);
+    assert forall|h: usize, t: usize| #![trigger g.edges@.dom().contains((h, t))] s(h) && g.edges@.dom().contains((h, t)) implies s(t) by {
+        assert(f.control_flow_graph.has_edge(h, t));
+        lemma_reach_out_edge(f, h, t);
+        lemma_loc_reach_trans(f, l0, block_start(f, h), Loc::Edge(h, t));
+        assert(is_block_start(f, t, block_start(f, t)));
+        lemma_loc_reach_step(f, l0, Loc::Edge(h, t), block_start(f, t));
+    }
+    graph::lemma_path_closed(g.edges@.dom(), s, e, b);
+}
+
+/// THE CLOSURE PROPERTY: in a well-formed function with entry block e, the locations reachable by
+/// repeated forward steps from the entry location (what from_function returns) are exactly the
+/// instructions and EmptyBlock locations of the blocks on paths from e and the edges leaving them
+pub proof fn lemma_forward_closure(f: Function, l: Loc)
+    requires f.function_wf(), f.control_flow_graph.entry is Some,
+    ensures
+        entry_loc(f) == Some(block_start(f, f.control_flow_graph.entry->0)),
+        loc_reach(f, entry_loc(f)->0, l) <==> on_path_from(f, f.control_flow_graph.entry->0, l),
+{
+    let e = f.control_flow_graph.entry->0;
+    let g = f.control_flow_graph.graph;
+    let l0 = block_start(f, e);
+    assert(f.control_flow_graph.has_block(e));
+    if loc_reach(f, l0, l) {
+        let p = choose|p: Seq<Loc>| #![trigger loc_walk(f, p)] loc_walk(f, p) && p[0] == l0 && p.last() == l;
+        let s = |x: Loc| on_path_from(f, e, x);
+        graph::lemma_path_refl(g.edges@.dom(), e);
+        if f.control_flow_graph.blocks_view()[e].instructions@.len() > 0 { lemma_instr_loc_valid(f, e, 0); }
+        assert(s(l0));
+        assert forall|a: Loc, b: Loc| #![trigger succ(f, a, b)] s(a) && succ(f, a, b) implies s(b) by {
+            lemma_on_path_closed(f, e, a, b);
+        }
+        lemma_loc_walk_closed(f, s, p, p.len() - 1);
+    }
+    if on_path_from(f, e, l) {
+        match l {
+            Loc::Instruction(b, i) => {
+                lemma_reach_block_start(f, e, b);
+                let blk = f.control_flow_graph.blocks_view()[b];
+                let p = choose|p: int| 0 <= p < blk.instructions@.len() && (#[trigger] blk.instructions@[p]).index == i;
+                lemma_reach_within_block(f, b, p);
+                lemma_loc_reach_trans(f, l0, block_start(f, b), l);
+            }
+            Loc::EmptyBlock(b) => {
+                lemma_reach_block_start(f, e, b);
+            }
+            Loc::Edge(h, t) => {
+                lemma_reach_block_start(f, e, h);
+                lemma_reach_out_edge(f, h, t);
+                lemma_loc_reach_trans(f, l0, block_start(f, h), l);
+            }
+        }
+    }
+}
